@@ -14,14 +14,14 @@ PROPS = {
     "C01": {
         "module": "Cdecao.Props.C01",
         "theorems": ["Props.C01", "Props.C01_node", "Props.C01_valid", "Props.C01_C08_cde"],
-        "streams": ["node", "node-rooms", "solve", "cdedb-read", "e2e-cde", "cli-simple"],
+        "streams": ["node", "node-rooms", "solve", "cdedb-read", "e2e-cde", "cli-simple", "node-exhaustive"],
     },
     "C02": {
         "module": "Cdecao.Props.C02",
         "extra_modules": ["Cdecao.Props.EngineTie"],
         "theorems": ["Props.C02_node_bound", "Props.C02_node_mono", "Props.C02_cover", "Props.C02_node_none", "Props.C02_feas_in_sol",
                      "Props.C02_feas_optimal", "Props.C02_wrong_empty", "Props.C02_compose", "Props.C02_partial", "Props.noFreeableb_sound", "Props.C02_full_counterexample", "Props.F1_root", "Props.F1_enforce", "Props.F1_cancel"],
-        "streams": ["solve-norooms", "node-norooms", "hungarian", "engine", "cli-simple"],
+        "streams": ["solve-norooms", "node-norooms", "hungarian", "engine", "cli-simple", "node-exhaustive", "hungarian-exhaustive"],
     },
     "C03": {
         "module": "Cdecao.Props.C03",
@@ -37,7 +37,7 @@ PROPS = {
                      "Props.C04_caobab_wf", "Props.C04_caobab_budget", "Props.C04_caobab_run_bound", "Props.C04_caobab_gen_bound",
                      "Props.C04_terminates", "Props.C04_terminates_maximal", "Props.C04_terminates_infinite", "Props.C04_terminates_spurious",
                      "Props.C04_terminates_optimal", "Props.C04_caobab_terminates", "Props.C04_caobab_no_infinite_run"],
-        "streams": ["engine", "solve", "engine-exhaustive", "node", "node-rooms"],
+        "streams": ["engine", "solve", "engine-exhaustive", "node", "node-rooms", "node-exhaustive"],
     },
     "C05": {
         "module": "Cdecao.Props.C05",
@@ -49,19 +49,19 @@ PROPS = {
     "C06": {
         "module": "Cdecao.Props.C06",
         "theorems": ["Props.C06", "Props.C06_node", "Props.C06_exec"],
-        "streams": ["node-rooms", "solve-rooms", "e2e-cde", "cli-simple"],
+        "streams": ["node-rooms", "solve-rooms", "e2e-cde", "cli-simple", "node-exhaustive"],
     },
     "C07": {
         "module": "Cdecao.Props.C07",
         "theorems": ["Props.C07_partial", "Props.C07_total", "Props.C07_exec", "Props.C07_i32", "Props.C07_i32_conv", "Props.C07_i32_eq", "Props.C07_i32_caobab",
                      "Props.C07_i32_partial", "Props.C07_i32_total"],
-        "streams": ["hungarian"],
+        "streams": ["hungarian", "hungarian-exhaustive"],
     },
     "C08": {
         "module": "Cdecao.Props.C08",
         "theorems": ["Props.C08_score", "Props.C08_score_valid", "Props.C08_max_ge", "Props.C08_quality_identity", "Props.C08_quality_lack",
                      "Props.C08_combined", "Props.C08_quality_max", "Props.C08_quality_engine", "Props.C01_C08_cde"],
-        "streams": ["node", "node-rooms", "solve", "solve-rooms", "cli-simple", "e2e-cde"],
+        "streams": ["node", "node-rooms", "solve", "solve-rooms", "cli-simple", "e2e-cde", "node-exhaustive"],
     },
     "C09": {
         "module": "Cdecao.Props.C09",
@@ -73,7 +73,7 @@ PROPS = {
         "module": "Cdecao.Props.C10",
         "extra_modules": ["Cdecao.Props.Main", "Cdecao.Props.PanicTie"],
         "theorems": ["Props.panic_sites_tie", "Props.C10_node", "Props.C10_tree", "Props.C10_cli", "Props.C10_cde", "Props.C10_main", "Props.C10_main_threads", "Props.main_skeleton_tie"],
-        "streams": ["node", "node-rooms", "solve", "cli-simple", "cli-main"],
+        "streams": ["node", "node-rooms", "solve", "cli-simple", "cli-main", "node-exhaustive"],
     },
     "C11": {
         "module": "Cdecao.Props.C11",
